@@ -349,6 +349,20 @@ def iter_extra(I, recv, name, argexprs, scope, frame, g, hint, e):
             out.append((c.and_(gi, -stopped, r.some), r.val))
             stopped = c.or2(stopped, c.and2(gi, -r.some))
         return IterV(out)
+    if name == "map_while":
+        f = arg()
+        out = []
+        stopped = F
+        for gi, x in recv.items:
+            gg = c.and_(g, gi, -stopped)
+            if gg == F:
+                continue
+            r = I.deref(I.call_closure(f, gg, [x]))
+            if not isinstance(r, OptV):
+                raise Unsupported("map_while closure does not return an Option")
+            out.append((c.and_(gi, -stopped, r.some), r.val))
+            stopped = c.or2(stopped, c.and2(gi, -r.some))
+        return IterV(out)
     if name == "enumerate":
         out = []
         prev = []
